@@ -2,6 +2,7 @@ import Upf.Proofs.TeidRun
 import Upf.Proofs.Seid
 import Upf.Gen.Leaf
 import Upf.Model.LockFacts
+import Upf.Proofs.TeidWorld
 /-!
 # C07 — UP-chosen identifiers are unique among live users
 
@@ -59,5 +60,42 @@ theorem seid_refused_iff (d : Nat → Nat) (live : List Nat) (i : Nat) :
 example : (Teid.allocate 3 { offset := 2, used := fun x => x == 2 }).map (·.1) = some 1 := by decide
 example : (Teid.allocate 3 { offset := 1, used := fun _ => true }).map (·.1) = none := by decide
 example : (Seid.pick (fun i => if i < 2 then 7 else 9) [7] 100 0) = (some 9, 3) := by decide
+
+/-! ### at the level of the agent (handlers of messages_session.go on the BESS agent model)
+
+`Agent.chosen w` lists the TEIDs of the stored sessions' PDRs whose F-TEID the UP chose (CHOOSE flag), over ALL associations.
+`TeidInv` = the allocator's cursor is in range ∧ those TEIDs are pairwise different, non-zero and marked in use. -/
+
+/-- an establishment — accepted, or refused at any point of its PDR loop or afterwards (the TEIDs it had chosen are given back) —
+keeps every chosen TEID of every stored session different from all others and in use -/
+theorem establishment_keeps_chosen_teids_distinct (cfg : Agent.Cfg) (w : Agent.World) (a lseid : Nat) (r : Agent.EstReq)
+    (hk : (w.conns.map (·.1)).Nodup) (hT : Agent.TeidInv w) : Agent.TeidInv (Agent.establish cfg w a lseid r).1 :=
+  Agent.establish_teid cfg w a lseid r hk hT
+
+/-- deletion / report "context not found" / association ending give back exactly the TEIDs of the sessions that end -/
+theorem endings_return_only_their_teids (cfg : Agent.Cfg) (w : Agent.World) (a seid : Nat) (hI : Agent.Inv cfg w) (hT : Agent.TeidInv w) :
+    Agent.TeidInv (Agent.deleteSession cfg w a seid).1 ∧ Agent.TeidInv (Agent.reportContextNotFound cfg w a seid) ∧
+    Agent.TeidInv (Agent.shutdownConn cfg w a) :=
+  ⟨Agent.delete_teid cfg w a seid hI hT, Agent.report_teid cfg w a seid hI hT, Agent.shutdown_teid cfg w a hI hT⟩
+
+/-- **from start-up on, along every history** of association setups, PFD updates, establishments, deletions, reports and
+association endings (any number of associations and sessions; envelope as in C03: stored sessions have distinct SEIDs and
+match keys): the TEIDs the agent has chosen and not yet released are non-zero, pairwise different across all associations,
+and in use in the allocator — so none of them can be chosen again (`alloc_fresh`); and nothing else is in use: no TEID is ever leaked -/
+theorem chosen_teids_distinct_along_every_history (cfg : Agent.Cfg) (pool : Option Pool.P) (g : Teid.G) (hg : g.offset < Agent.M)
+    (hfresh : ∀ x, g.used x = false) (evs : List Agent.Ev) (henv : Agent.EnvOK cfg { pool := pool, teid := g } evs) :
+    let w := evs.foldl (Agent.stepEv cfg) { pool := pool, teid := g }
+    (Agent.chosen w).Nodup ∧ (∀ t ∈ Agent.chosen w, 1 ≤ t ∧ w.teid.used (t - 1) = true) ∧
+    (∀ x, w.teid.used x = true → x + 1 ∈ Agent.chosen w) := by
+  have h := Agent.inv_teid_run cfg evs { pool := pool, teid := g } (Agent.inv_start cfg pool g)
+    ⟨hg, by simp [Agent.chosen, Agent.allSessions, Agent.flat, Agent.Held, hfresh]⟩ henv
+  exact h.2.held
+
+-- non-vacuity: an establishment with a CHOOSE F-TEID on the uplink PDR chooses TEID 1 on a fresh allocator
+example : Agent.chosen (Agent.establish { accessIP := 0xC6120101, coreIP := 0x7F000001, ueAlloc := false, endMarker := false, qci := [] }
+    { conns := [(0, { remoteNode := "smf" })] } 0 77
+    { nodeID := "smf", cpSeid := 1, cpIP := 1,
+      pdrs := [{ id := 1, prec := 1, srcIface := some 0, fteid := some (true, 0, 0), ueip := some (2, 0x0A3C0001), farID := 1 }],
+      fars := [{ id := 1, action := 2, fwd := some { dst := some 1 } }], qers := [] }).1 = [1] := by decide +kernel
 
 end Props.C07
